@@ -172,9 +172,13 @@ class JSONCodec(AbstractMetadataCodec):
         else:
             result = json.loads(encoded.decode())
 
-        # Assign default values
+        # Assign default values. The defaults are copied so that a caller mutating
+        # the decoded object (e.g. appending to a default list) cannot change what
+        # later rows decode to.
         if isinstance(result, dict):
-            return dict(self.defaults, **result)
+            if len(self.defaults) == 0:
+                return result
+            return dict(copy.deepcopy(self.defaults), **result)
         else:
             return result
 
